@@ -105,11 +105,11 @@ def run(ctx, res):
     evaluations, distinct, folded, oom, disagreements = 0, set(), 0, 0, 0
     kinds = {}
     gkeys = sorted(groups, key=str)
-    static_keys = [k for k in gkeys if k[0] != k[1]]      # static autoescape block against the environment's setting
+    static_keys = [k for k in gkeys if k[1] is not None and k[0] != k[1]]      # static autoescape block against the environment's setting
     for tree, src, lsrc, lenv in zip(trees, srcs, lsrcs, lenvs):
         data = X.make_data(jinja2, rng)
         vars_, objs = X.ctx_sx(jinja2, data)
-        gkey = rng.choice(static_keys) if rng.random() < 0.2 else rng.choice(gkeys)
+        gkey = rng.choice(static_keys) if rng.random() < 0.3 else rng.choice(gkeys)
         wrapper = rng.choice(WRAPPERS) if rng.random() < 0.5 else WRAPPERS[0]
         outs = []
         for v in groups[gkey]:
